@@ -153,7 +153,11 @@ static inline int guarded(F&& f) {
     g_signo = 0;
     if (sigsetjmp(g_jb, 0) == 0) {
         g_in_call = 1;
+        // compiler barriers: a (possibly trapping) operation of the call must not be scheduled
+        // outside the window in which a signal is attributed to AVEL
+        __asm__ volatile("" : : : "memory");
         f();
+        __asm__ volatile("" : : : "memory");
         g_in_call = 0;
     }
     Env a = read_env();
